@@ -18,7 +18,30 @@ var (
 	windowMax atomic.Int64 // worst overshoot (ns) since the last Begin
 )
 
+// sink keeps the allocations of the allocating heartbeat alive for one tick.
+var sink atomic.Pointer[[]byte]
+
 func start() {
+	// one heartbeat allocates like the code under test does (gopcua allocates a
+	// receive buffer of 64 KiB per message): a goroutine that allocates can be
+	// held up by the garbage collector (assist) while sleeping goroutines are not
+	go func() {
+		const iv = 5 * time.Millisecond
+		for {
+			t0 := time.Now()
+			time.Sleep(iv)
+			b := make([]byte, 64<<10)
+			b[0] = 1
+			sink.Store(&b)
+			late := int64(time.Since(t0) - iv)
+			for {
+				old := windowMax.Load()
+				if late <= old || windowMax.CompareAndSwap(old, late) {
+					break
+				}
+			}
+		}
+	}()
 	for i := 0; i < 8; i++ {
 		go func() {
 			for {
